@@ -949,14 +949,25 @@ def rule_sk_unnest_pos(cx, rep, port):
     fd = p.func(mod, 'compile_and_run.select_unnested' if port == 'py' else 'select_unnested')
     params = [a.arg for a in fd.args.args]
     folded = params[-1]
+    _unnest_verdict(cx, rep, port, fd)
     stores = [n for n in walk_no_nested(fd) if isinstance(n, ast.Assign) and isinstance(n.targets[0], ast.Subscript) and not isinstance(n.targets[0].slice, ast.Slice)]
     stores = [s for s in stores if isinstance(s.targets[0].value, ast.Name)]
-    if len(stores) != 1:
-        raise Undecided('select_unnested: element substitution store not found', fd)
-    st = stores[0]
-    pos = st.targets[0].slice
-    if not isinstance(pos, ast.Name):
-        raise Undecided('select_unnested: substitution index is not a local name', st)
+    if len(stores) == 1 and isinstance(stores[0].targets[0].slice, ast.Name):
+        st = stores[0]
+        pos = st.targets[0].slice
+    else:
+        # position used through slices: folded[:pos] + [v] + folded[pos + 1:]
+        cands = set()
+        for x in ast.walk(fd):
+            if isinstance(x, ast.Subscript) and isinstance(x.slice, ast.Slice) and is_name(x.value, folded):
+                for b in (x.slice.lower, x.slice.upper):
+                    if b is not None:
+                        cands |= {n_.id for n_ in ast.walk(b) if isinstance(n_, ast.Name)}
+        cands -= {folded}
+        if len(cands) != 1:
+            raise Undecided('select_unnested: substitution position not recognised', fd)
+        st = fd
+        pos = ast.Name(id=cands.pop(), ctx=ast.Load())
     defs = [n for n in walk_no_nested(fd) if isinstance(n, ast.Assign) and any(is_name(t, pos.id) for t in n.targets)]
     bad = []
     good = 0
@@ -988,6 +999,9 @@ def rule_sk_unnest_pos(cx, rep, port):
     # a fresh copy per element, elements in order, verdict propagated
     loops = [lp for lp in walk_no_nested(fd) if isinstance(lp, ast.For) and 'unnest_list' in node_text(lp.iter, 200)]
     if len(loops) != 1:
+        comps = [c_ for c_ in ast.walk(fd) if isinstance(c_, (ast.ListComp, ast.GeneratorExp)) and any('unnest_list' in node_text(g_.iter, 200) for g_ in c_.generators)]
+        if comps:
+            return   # expansion by comprehension: order is the list order; verdict handling is judged by 'unnest verdict'
         rep.undecided('unnest expansion', fd, 'loop over unnest_list not found')
         return
     lp = loops[0]
@@ -998,3 +1012,39 @@ def rule_sk_unnest_pos(cx, rep, port):
     copies = [n for n in ast.walk(fd) if isinstance(n, (ast.Assign,)) and copy_source(n.value) is not None and is_name(copy_source(n.value), folded)] + [n for n in ast.walk(fd) if isinstance(n, ast.Call) and isinstance(n.func, ast.Attribute) and n.func.attr == 'slice' and any(c is n for x in walk_no_nested(lp) for c in ast.walk(x))]
     in_loop = [c for c in copies if any(c is x for x in ast.walk(lp))]
     rep.decide(bool(in_loop), 'unnest copies', in_loop[0] if in_loop else lp, 'each emitted record is a fresh copy', 'the records emitted for one UNNEST list share a single list object')
+
+
+def _unnest_verdict(cx, rep, port, fd):
+    """after select_simple refuses (returns false) no further element of the UNNEST list is emitted"""
+    calls = [c for c in ast.walk(fd) if isinstance(c, ast.Call) and call_name(c) == 'select_simple']
+    if not calls:
+        rep.undecided('unnest verdict', fd, 'select_simple call not found in select_unnested')
+        return
+    for c in calls:
+        par = getattr(c, 'parent', None)
+        # inside a list comprehension: every element is evaluated before all()/any() looks at the verdicts
+        anc = par
+        in_listcomp = False
+        in_gen = False
+        while anc is not None and anc is not fd:
+            if isinstance(anc, ast.ListComp):
+                in_listcomp = True
+            if isinstance(anc, ast.GeneratorExp):
+                in_gen = True
+            anc = getattr(anc, 'parent', None)
+        if in_listcomp or (isinstance(par, ast.Call) and isinstance(par.func, ast.Attribute) and par.func.attr in ('map', 'forEach')):
+            rep.violated('unnest verdict', c, 'select_simple is called for every element of the UNNEST list before any verdict is looked at (list comprehension / map): after the writer refuses (TOP reached, broken pipe) the remaining elements are still written')
+            return
+        if in_gen:
+            rep.holds('unnest verdict', c, 'generator expression consumed by all(): stops at the first refusal')
+            return
+        neg = isinstance(par, ast.UnaryOp) and isinstance(par.op, ast.Not) and isinstance(getattr(par, 'parent', None), ast.If)
+        if neg:
+            iff = par.parent
+            first = iff.body[0] if iff.body else None
+            ok = isinstance(first, ast.Break) or (isinstance(first, ast.Return) and first.value is not None and isinstance(first.value, ast.Constant) and first.value.value is False)
+            rep.decide(ok, 'unnest verdict', c, 'a refusal ends the expansion with False', 'a refusal of select_simple does not end the UNNEST expansion')
+        elif isinstance(par, ast.Expr):
+            rep.violated('unnest verdict', c, 'the verdict of select_simple is dropped inside select_unnested')
+        else:
+            rep.undecided('unnest verdict', c, 'use of the select_simple verdict not recognised')
